@@ -188,7 +188,9 @@ class C07(Spec):
 
     def units(self, tier):
         sh = (lambda g, s: 2 if 'SGal3' in g or g == 'SE_2_3' else 1)
-        return lattice_units('checks/c07.cpp', shards=sh)
+        us = lattice_units('checks/c07.cpp', shards=sh)
+        us.append(Unit('cross_type_first_use_order', 'checks/c07_cross.cpp', defs=['VF_UNIT="all_types/first_use_order"', 'VF_PROP="C07"'], shards=4))
+        return us
 
 
 class C08(Spec):
@@ -227,7 +229,9 @@ class C09(Spec):
     level_note = 'trusted: fork() gives each history a pristine copy of the never-initialised statics (the parent never calls a manif function before forking)'
 
     def units(self, tier):
-        return lattice_units('checks/c09.cpp', shards=(lambda g, s: 4 if tier == 'thorough' else 2))
+        us = lattice_units('checks/c09.cpp', shards=(lambda g, s: 4 if tier == 'thorough' else 2))
+        us.append(Unit('cross_type_first_use_order', 'checks/c07_cross.cpp', defs=['VF_UNIT="all_types/first_use_order"', 'VF_PROP="C09"'], shards=4))
+        return us
 
 
 class C10(Spec):
